@@ -35,6 +35,7 @@ import (
 //	LIN    <component> <seed> <threads> <ops>   short concurrent history, checked for linearizability
 //	STRESS <component> <seed> <threads> <ops>   long concurrent workload, race detection only
 //	EBMID                                       deterministic EventsBuffer scenario (Process callback blocks mid-push)
+//	EBTORN <seed>                               EventsBuffer with equal-size events: every Total() pair must satisfy Size == Num*size
 //	POOLMID                                     deterministic SyncedPool.Flush vs writes through store handles (three stores, the second flush blocks)
 //	SNAPMID                                     deterministic Flushable.GetSnapshot vs Flush scenario (the parent's GetSnapshot blocks)
 //
@@ -52,6 +53,8 @@ func c28Gen(r *rand.Rand, n int, tier string, emit func(input ...string)) {
 	emit("SNAPMID")
 	emit("POOLMID")
 	emit("POOLRD")
+	emit("EBTORN", fmt.Sprint(1+r.Int63n(1<<30)))
+	emit("EBTORN", fmt.Sprint(1+r.Int63n(1<<30)))
 	for i := 0; i < n; i++ {
 		comp := c28Components[i%len(c28Components)]
 		seed := fmt.Sprint(r.Int63n(1 << 40))
